@@ -1235,6 +1235,23 @@ class Run:
         exc = RAISE_KINDS[kind](f'a{fr.actor.aid}')
         _mark_expected(exc)
         exc._sim_label = kind  # type: ignore[attr-defined]
+        # how the exception comes about must not matter either (S35): raised directly, raised while
+        # another exception is being handled (`__context__` set), or raised by a `finally` clause
+        # during the unwinding of another one.  Chosen without drawing from the PRNG, so that the
+        # schedule of a run does not depend on it.
+        flavour = (fr.actor.aid + list(RAISE_KINDS).index(kind)) % 3
+        if flavour == 1:
+            self.probe('raise_while_handling_another')
+            try:
+                raise LookupError('being handled')
+            except LookupError:
+                raise exc
+        if flavour == 2:
+            self.probe('raise_from_finally_during_unwinding')
+            try:
+                raise LookupError('unwinding')
+            finally:
+                raise exc
         raise exc
 
     def do_badconfig(self, fr: Frame) -> None:
